@@ -4192,7 +4192,13 @@ func (a *Association) checkPartialReliabilityStatus(chunkPayload *chunkPayloadDa
 	}
 
 	// PR-SCTP
-	if stream, ok := a.streams[chunkPayload.streamIdentifier]; ok { //nolint:nestif
+	stream, ok := a.streams[chunkPayload.streamIdentifier]
+	if chunkPayload.stream != nil {
+		// The sending stream keeps its policy when the peer has reset its own
+		// direction, which takes the stream out of the table.
+		stream, ok = chunkPayload.stream, true
+	}
+	if ok { //nolint:nestif
 		stream.lock.RLock()
 		if stream.reliabilityType == ReliabilityTypeRexmit {
 			if chunkPayload.nSent >= stream.reliabilityValue {
